@@ -31,7 +31,14 @@ type Renderer struct {
 	callSeen    map[string][]*ssa.Call
 	noInline    bool
 	inlineDepth int
-	bind        []string // parameter i is rendered as bind[i] (helper seen in its caller's terms)
+	loadActive  map[*ssa.Alloc]bool
+	// cur: the instruction whose operands are being rendered (the use site of a φ operand)
+	cur       ssa.Instruction
+	live      map[*ssa.BasicBlock]bool
+	// pruneCount: how many φ alternatives were left out so far (a φ rendered with some left out is not memoised)
+	pruneCount int
+	condsMemo map[*ssa.BasicBlock]map[ssa.Value]bool
+	bind      []string // parameter i is rendered as bind[i] (helper seen in its caller's terms)
 }
 
 func (p *Prog) R(fn *ssa.Function) *Renderer {
@@ -99,6 +106,22 @@ func rootAlloc(addr ssa.Value) (*ssa.Alloc, string) {
 		case *ssa.FieldAddr:
 			path = "." + fieldName(a.X.Type(), a.Field) + path
 			addr = a.X
+		case *ssa.Phi:
+			// a pointer that is either one local record or nil: where it is dereferenced it is the record
+			var only ssa.Value
+			for _, e := range a.Edges {
+				if isNilConst(e) {
+					continue
+				}
+				if only != nil && only != e {
+					return nil, ""
+				}
+				only = e
+			}
+			if _, ok := only.(*ssa.Alloc); !ok {
+				return nil, ""
+			}
+			addr = only
 		default:
 			return nil, ""
 		}
@@ -278,9 +301,34 @@ func structField(t types.Type, i int) *types.Var {
 	return st.Field(i)
 }
 
+// EAt renders v as the operand of instruction `user` (φ alternatives that cannot reach user are left out).
+func (r *Renderer) EAt(v ssa.Value, user ssa.Instruction) string {
+	prev := r.cur
+	r.cur = user
+	defer func() { r.cur = prev }()
+	return r.E(v)
+}
+
 func (r *Renderer) E(v ssa.Value) string {
 	if v == nil {
 		return "_"
+	}
+	if ph, ok := v.(*ssa.Phi); ok && r.cur != nil && r.anyEdgePruned(ph) {
+		// the alternatives depend on the use site: rendered afresh, never memoised
+		if r.inprog[v] {
+			return "@"
+		}
+		r.inprog[v] = true
+		s := r.render(v)
+		delete(r.inprog, v)
+		return s
+	}
+	if in, ok := v.(ssa.Instruction); ok {
+		if _, isPhi := v.(*ssa.Phi); !isPhi && in.Block() != nil {
+			prev := r.cur
+			r.cur = in
+			defer func() { r.cur = prev }()
+		}
 	}
 	if s, ok := r.memo[v]; ok {
 		return s
@@ -311,9 +359,11 @@ func (r *Renderer) E(v ssa.Value) string {
 			return "@"
 		}
 		r.inprog[v] = true
+		c0 := r.pruneCount
 		s := r.render(v)
 		delete(r.inprog, v)
-		if len(r.inprog) == 0 {
+		_, isPhi := v.(*ssa.Phi)
+		if len(r.inprog) == 0 && !(isPhi && r.pruneCount != c0) {
 			r.memo[v] = s
 		}
 		return s
@@ -517,7 +567,10 @@ func (r *Renderer) render(v ssa.Value) string {
 		var leaves []ssa.Value
 		var collect func(ph *ssa.Phi)
 		collect = func(ph *ssa.Phi) {
-			for _, e := range ph.Edges {
+			for k, e := range ph.Edges {
+				if r.edgePruned(ph, k) || (k < len(ph.Block().Preds) && (r.deadBlock(ph.Block().Preds[k]) || deadEdge(ph.Block().Preds[k], ph.Block()))) {
+					continue
+				}
 				if np, ok := e.(*ssa.Phi); ok && !isRangeCounter(np) {
 					if !group[np] {
 						group[np] = true
@@ -706,6 +759,35 @@ func (r *Renderer) load(x *ssa.UnOp) string {
 	a, path := rootAlloc(x.X)
 	if a == nil || path == "" {
 		if a != nil {
+			// a local with several assignments (a named result, a variable captured by a closure): the value read
+			// here is the one of the assignments that can reach this load, not the mixture of all of them
+			if ws := r.wholeStores[a]; len(ws) > 1 {
+				if _, isStruct := a.Type().(*types.Pointer).Elem().Underlying().(*types.Struct); !isStruct && !r.loadActive[a] {
+					// (an accumulator `v = f(v)` in a loop reads its own earlier value: the inner read is the variable itself)
+					if r.loadActive == nil {
+						r.loadActive = map[*ssa.Alloc]bool{}
+					}
+					r.loadActive[a] = true
+					defer delete(r.loadActive, a)
+					live := r.liveOrigins(x, a, "")
+					var alts []string
+					zero := false
+					for _, o := range live {
+						if w, ok := o.(*ssa.Store); ok {
+							alts = append(alts, r.E(w.Val))
+						} else {
+							zero = true
+						}
+					}
+					if !zero && len(alts) > 0 {
+						alts = dedupe(alts)
+						if len(alts) == 1 {
+							return alts[0]
+						}
+						return "var{" + strings.Join(alts, "|") + "}"
+					}
+				}
+			}
 			return r.E(a)
 		}
 		if _, ok := x.X.(*ssa.Global); ok {
@@ -779,6 +861,198 @@ func (r *Renderer) fieldAt(a *ssa.Alloc, path string, at ssa.Instruction, origin
 		return alts[0]
 	}
 	return "mix{" + strings.Join(alts, "|") + "}"
+}
+
+// LoadedValue: when v reads a local variable (or a field of a local record) whose value at that point was put
+// there by exactly one store, the stored value; otherwise v itself. Lets value-level rules see through records
+// that only carry a value from one statement to another (`plan := T{n: x}; … use(plan.n)`).
+func (r *Renderer) LoadedValue(v ssa.Value) ssa.Value {
+	for i := 0; i < 8; i++ {
+		x, ok := v.(*ssa.UnOp)
+		if !ok || x.Op != token.MUL {
+			return v
+		}
+		a, path := rootAlloc(x.X)
+		if a == nil {
+			return v
+		}
+		var next ssa.Value
+		if path == "" {
+			live := r.liveOrigins(x, a, "")
+			if len(live) != 1 {
+				return v
+			}
+			w, ok := live[0].(*ssa.Store)
+			if !ok {
+				return v
+			}
+			next = w.Val
+		} else {
+			// the field of a record, followed back through whole-record copies (`b := a` keeps a's fields)
+			var at ssa.Instruction = x
+			for hop := 0; hop < 6 && next == nil; hop++ {
+				var cands []*ssa.Store
+				for _, s := range r.fieldStores[a] {
+					if _, sp := rootAlloc(s.Addr); sp == path && r.storeReachesLoad(s, at, a, path) {
+						cands = append(cands, s)
+					}
+				}
+				live := r.liveOrigins(at, a, path)
+				switch {
+				case len(cands) == 1 && len(live) == 0:
+					next = cands[0].Val
+				case len(cands) == 0 && len(live) == 1:
+					w, ok := live[0].(*ssa.Store)
+					if !ok {
+						return v
+					}
+					src := structCopySource(w)
+					if src == nil || src == a {
+						return v
+					}
+					a, at = src, w
+				default:
+					return v
+				}
+			}
+			if next == nil {
+				return v
+			}
+		}
+		v = next
+	}
+	return v
+}
+
+// condsAt: the branch conditions (SSA value → outcome) that hold whenever control is in block b: b is reached only
+// through that outcome of a dominating branch. Conditions computed inside a loop are left out (their value changes).
+func (r *Renderer) condsAt(b *ssa.BasicBlock) map[ssa.Value]bool {
+	if m, ok := r.condsMemo[b]; ok {
+		return m
+	}
+	if r.condsMemo == nil {
+		r.condsMemo = map[*ssa.BasicBlock]map[ssa.Value]bool{}
+	}
+	m := map[ssa.Value]bool{}
+	r.condsMemo[b] = m
+	for d := b; d != nil && d.Idom() != nil; d = d.Idom() {
+		id := d.Idom()
+		if len(d.Preds) != 1 || d.Preds[0] != id {
+			continue
+		}
+		if c, val, ok := r.branchCond(id, d); ok {
+			if _, seen := m[c]; !seen {
+				m[c] = val
+			}
+		}
+	}
+	return m
+}
+
+// branchCond: block `from` ends in a two-way branch on a loop-invariant value; returns the value and its outcome
+// on the edge from → to.
+func (r *Renderer) branchCond(from, to *ssa.BasicBlock) (ssa.Value, bool, bool) {
+	if len(from.Instrs) == 0 || len(from.Succs) != 2 || from.Succs[0] == from.Succs[1] {
+		return nil, false, false
+	}
+	iff, ok := from.Instrs[len(from.Instrs)-1].(*ssa.If)
+	if !ok {
+		return nil, false, false
+	}
+	val := from.Succs[0] == to
+	c := iff.Cond
+	for {
+		if u, ok := c.(*ssa.UnOp); ok && u.Op == token.NOT {
+			c, val = u.X, !val
+			continue
+		}
+		if lv := r.LoadedValue(c); lv != c {
+			c = lv
+			continue
+		}
+		break
+	}
+	in, ok := c.(ssa.Instruction)
+	if !ok || in.Block() == nil {
+		return nil, false, false
+	}
+	if _, isPhi := c.(*ssa.Phi); isPhi {
+		return nil, false, false
+	}
+	if r.blockReach(in.Block())[in.Block()] {
+		return nil, false, false // recomputed on every iteration
+	}
+	return c, val, true
+}
+
+// deadBlock: b cannot be reached from the entry once the branches whose outcome is fixed (a nil test of an error that
+// is known to be a failure value, or known to be nil) are taken into account.
+func (r *Renderer) deadBlock(b *ssa.BasicBlock) bool {
+	if r.live == nil {
+		r.live = map[*ssa.BasicBlock]bool{}
+		if len(r.fn.Blocks) > 0 {
+			work := []*ssa.BasicBlock{r.fn.Blocks[0]}
+			r.live[r.fn.Blocks[0]] = true
+			if r.fn.Recover != nil {
+				work = append(work, r.fn.Recover)
+				r.live[r.fn.Recover] = true
+			}
+			for len(work) > 0 {
+				c := work[len(work)-1]
+				work = work[:len(work)-1]
+				skip := staticNilBranch(c)
+				for i, sc := range c.Succs {
+					if i == skip || r.live[sc] {
+						continue
+					}
+					r.live[sc] = true
+					work = append(work, sc)
+				}
+			}
+		}
+	}
+	return b.Parent() == r.fn && !r.live[b]
+}
+
+// deadEdge: the transition from → to is the outcome of a nil test that is fixed the other way.
+func deadEdge(from, to *ssa.BasicBlock) bool {
+	i := staticNilBranch(from)
+	return i >= 0 && i < len(from.Succs) && from.Succs[i] == to && from.Succs[1-i] != to
+}
+
+// edgePruned: seen from the current use site, edge k of φ ph is never the one taken: the transition into the φ's
+// block requires an outcome of a branch condition that contradicts the outcome the use site is guarded by.
+func (r *Renderer) edgePruned(ph *ssa.Phi, k int) bool {
+	if r.cur == nil || r.cur.Block() == nil || ph.Block() == nil || r.cur.Parent() != ph.Parent() || k >= len(ph.Block().Preds) {
+		return false
+	}
+	use := r.condsAt(r.cur.Block())
+	if len(use) == 0 {
+		return false
+	}
+	pred := ph.Block().Preds[k]
+	if c, val, ok := r.branchCond(pred, ph.Block()); ok {
+		if u, known := use[c]; known && u != val {
+			r.pruneCount++
+			return true
+		}
+	}
+	for c, val := range r.condsAt(pred) {
+		if u, known := use[c]; known && u != val {
+			r.pruneCount++
+			return true
+		}
+	}
+	return false
+}
+
+func (r *Renderer) anyEdgePruned(ph *ssa.Phi) bool {
+	for k := range ph.Edges {
+		if r.edgePruned(ph, k) {
+			return true
+		}
+	}
+	return false
 }
 
 // structCopySource: the local struct variable a whole store copies from (`*a = *src`).
@@ -1054,6 +1328,38 @@ func nonNeg(v ssa.Value) bool {
 	}
 	if bt, ok := v.Type().Underlying().(*types.Basic); ok && bt.Info()&types.IsUnsigned != 0 {
 		return true
+	}
+	// a loop counter that starts at a non-negative constant and only grows (the index of a range loop, `i := 0; …; i++`)
+	isPosStep := func(e ssa.Value, ph *ssa.Phi) bool {
+		bo, ok := e.(*ssa.BinOp)
+		if !ok || bo.Op != token.ADD {
+			return false
+		}
+		c, ok := bo.Y.(*ssa.Const)
+		return ok && bo.X == ssa.Value(ph) && c.Value != nil && c.Value.Kind() == constant.Int && constant.Sign(c.Value) > 0
+	}
+	counter := func(ph *ssa.Phi, min int64) bool {
+		for _, e := range ph.Edges {
+			if c, ok := e.(*ssa.Const); ok && c.Value != nil && c.Value.Kind() == constant.Int {
+				if i, exact := constant.Int64Val(c.Value); exact && i >= min {
+					continue
+				}
+				return false
+			}
+			if !isPosStep(e, ph) {
+				return false
+			}
+		}
+		return len(ph.Edges) > 0
+	}
+	switch x := v.(type) {
+	case *ssa.Phi:
+		return counter(x, 0)
+	case *ssa.BinOp:
+		// the index of a range loop is its hidden counter (from -1) plus one
+		if ph, ok := x.X.(*ssa.Phi); ok && x.Op == token.ADD && isConstIntVal(x.Y, 1) {
+			return counter(ph, -1)
+		}
 	}
 	return false
 }
